@@ -388,3 +388,52 @@ pub fn parse_addr(s: &str) -> Option<(u16, String, String)> {
     }
     Some((kind, hex(&ab), d.to_string()))
 }
+
+/// The std::iter::Iterator protocol beyond `next`-until-`None`: the provided methods an implementation may
+/// override (`nth`, `count`, `last`, `size_hint`) and the adaptors built on them (`skip`, `step_by`, `by_ref`)
+/// must agree with plain collection. `make` creates a fresh iterator of the library's own type (no adaptor in
+/// between, so that its own overrides are the ones called), `conv` turns an item into a comparable value and
+/// `expected` is what collecting yields.
+pub fn iter_protocol<T: PartialEq + std::fmt::Debug, I: Iterator>(what: &str, make: impl Fn() -> I, conv: impl Fn(I::Item) -> T, expected: &[T]) -> Result<(), String> {
+    let len = expected.len();
+    let (lo, hi) = make().size_hint();
+    if lo > len || hi.map(|h| h < len).unwrap_or(false) {
+        return Err(format!("INCONSISTENT: {what}: size_hint ({lo}, {hi:?}) excludes the real length {len}"));
+    }
+    if make().count() != len {
+        return Err(format!("INCONSISTENT: {what}: count() differs from the number of items yielded ({len})"));
+    }
+    if make().last().map(&conv).as_ref() != expected.last() {
+        return Err(format!("INCONSISTENT: {what}: last() differs from the last item yielded"));
+    }
+    let js: Vec<usize> = if len <= 6 { (0..=len).collect() } else { vec![0, 1, 2, len / 2, len - 1, len] };
+    let ks: Vec<usize> = if len <= 6 { vec![0, 1, 2] } else { vec![0, 1, 2, len / 3] };
+    for &j in &js {
+        for &k in &ks {
+            let mut it = make();
+            for _ in 0..j {
+                let _ = it.next();
+            }
+            let got = it.nth(k).map(&conv);
+            if got.as_ref() != expected.get(j + k) {
+                return Err(format!("INCONSISTENT: {what}: after {j} next() calls nth({k}) gives {:?}, item {} is {:?}", got, j + k, expected.get(j + k)));
+            }
+            let after = it.next().map(&conv);
+            if j + k < len && after.as_ref() != expected.get(j + k + 1) {
+                return Err(format!("INCONSISTENT: {what}: next() after nth({k}) (preceded by {j} next() calls) gives {:?}, expected {:?}", after, expected.get(j + k + 1)));
+            }
+            let stepped: Vec<T> = make().skip(j).step_by(k + 1).take(len + 1).map(&conv).collect();
+            let want: Vec<&T> = expected.iter().skip(j).step_by(k + 1).collect();
+            if stepped.len() != want.len() || stepped.iter().zip(want.iter()).any(|(a, b)| a != *b) {
+                return Err(format!("INCONSISTENT: {what}: skip({j}).step_by({}) yields {} items {:?}, expected {} items", k + 1, stepped.len(), stepped.iter().take(4).collect::<Vec<_>>(), want.len()));
+            }
+        }
+        let mut it = make();
+        let mut both: Vec<T> = it.by_ref().take(j).map(&conv).collect();
+        both.extend(it.map(&conv));
+        if both.len() != len || both.iter().zip(expected.iter()).any(|(a, b)| a != b) {
+            return Err(format!("INCONSISTENT: {what}: by_ref().take({j}) followed by the rest differs from plain collection"));
+        }
+    }
+    Ok(())
+}
